@@ -96,9 +96,9 @@ func (v Verdict) Admits(o Observed) bool {
 	return false
 }
 
-// rootDominates: under the router's documented specificity order root a strictly beats root b
+// RootDominates: under the router's documented specificity order root a strictly beats root b
 // (both are known to match the request).
-func rootDominates(router string, a, b Template) bool {
+func RootDominates(router string, a, b Template) bool {
 	if router == JSR311 {
 		// only: a longer literal root beats its own literal prefix
 		if len(a) <= len(b) {
@@ -294,7 +294,7 @@ func Decide(table TableSpec, req ReqSpec, router string) Verdict {
 		for _, si := range ms {
 			dominated := false
 			for _, sj := range ms {
-				if sj != si && rootDominates(router, table.Services[sj].Root, table.Services[si].Root) {
+				if sj != si && RootDominates(router, table.Services[sj].Root, table.Services[si].Root) {
 					dominated = true
 				}
 			}
